@@ -342,12 +342,16 @@ def defects(rng, rows, model):
     tail = len(rows)
     names = [rows[i][1] for i in f_index]
     extra = lambda row: (rows + [row], tail + 1, None)
+    other_case_name = next((n.swapcase() for n in names if n.swapcase() != n and n.swapcase() not in names), "no_such_field")
     for name, row in (("empty-check-description", ["C", "", "IsUnique", names[0]]),
                       ("unknown-check-type", ["C", "new", "NoSuchCheck", names[0]]),
                       ("unknown-check-type-lowercase", ["C", "new", "isunique", names[0]]),
                       ("check-without-type", ["C", "new", "", names[0]]),
                       ("undeclared-field-in-isunique", ["C", "new", "IsUnique", "no_such_field"]),
                       ("undeclared-field-in-isunique-list", ["C", "new", "IsUnique", names[0] + ", no_such_field"]),
+                      # (field names are case sensitive: the declared name in another letter case is another, undeclared name)
+                      ("undeclared-field-in-isunique-other-case", ["C", "new", "IsUnique", other_case_name]),
+                      ("undeclared-field-in-distinctcount-other-case", ["C", "new", "DistinctCount", other_case_name + " < 3"]),
                       ("undeclared-field-in-distinctcount", ["C", "new", "DistinctCount", "no_such_field < 3"]),
                       ("undeclared-field-in-distinctcount-after-or", ["C", "new", "DistinctCount", names[0] + " < 1 or no_such_field"]),
                       ("undeclared-field-in-distinctcount-after-and", ["C", "new", "DistinctCount", names[0] + " < 0 and no_such_field > 1"]),
